@@ -1,5 +1,241 @@
-import MptModel.Impl.Ring
-import MptModel.Spec.Deque
+/-
+  C13 — Ring-buffer queue is a faithful byte deque.   PROPERTY THEOREMS ONLY.
+
+  M = `Mpt.Ring` (MptModel/Impl/Ring.lean, mirrors mptcore/queue/*.c), S = `Mpt.Deque` (a plain list).
+  `Ring.content` is the abstraction function (the bytes `base[(off+i) % max]`, i < len, that the C struct
+  denotes).  `Ring.WF` (len ≤ max ∧ off ≤ max) is the representation invariant.
+
+  Every theorem holds for ALL rings (any capacity, offset, fill, wrapped or not), all operands, all
+  histories.  Proved: crop, get, set, push, unshift, pop, shift (ok + refusal cases, memory bounds) and
+  the history theorem over these operations.  Stated but not proved (correspondence only): align, resize,
+  prepare, find, string — see the `_statement` definitions at the end.
+-/
+import MptModel.Lemmas.Ring2
+
 namespace Mpt.C13
-theorem placeholder : True := trivial
+open Mpt Mpt.Ring
+
+/-- operations of a history (data pointer supplied, as the property's "every read returns those bytes") -/
+inductive Op where
+  | push (bs : List Byte)
+  | unshift (bs : List Byte)
+  | pop (n : Nat)
+  | shift (n : Nat)
+  | crop (pos n : Nat)
+  | set (pos : Nat) (bs : List Byte)
+  | get (pos n : Nat)
+  deriving Repr
+
+/-- observable outcome of one operation -/
+inductive Out where
+  | ok (bytes : List Byte)      -- accepted; bytes returned to the caller (empty for writes)
+  | refused                     -- refused, nothing changed
+  | bad                         -- the model left the storage or faulted (never happens, see `step_refines`)
+  deriving Repr, DecidableEq
+
+/-- M: one operation on the ring model -/
+def stepM (r : Ring) : Op → Ring × Out
+  | .push bs => match r.qpush bs.length (some bs) with
+    | .ok (r', _) => (r', .ok []) | .err _ => (r, .refused) | .null => (r, .refused) | _ => (r, .bad)
+  | .unshift bs => match r.qunshift bs.length (some bs) with
+    | .ok (r', _) => (r', .ok []) | .err _ => (r, .refused) | .null => (r, .refused) | _ => (r, .bad)
+  | .pop n => match r.qpop n true with
+    | .ok (r', out) => (r', .ok out) | .err _ => (r, .refused) | .null => (r, .refused) | _ => (r, .bad)
+  | .shift n => match r.qshift n true with
+    | .ok (r', out) => (r', .ok out) | .err _ => (r, .refused) | .null => (r, .refused) | _ => (r, .bad)
+  | .crop pos n => match r.crop pos n with
+    | .ok (r', _) => (r', .ok []) | .err _ => (r, .refused) | .null => (r, .refused) | _ => (r, .bad)
+  | .set pos bs => match r.set pos bs.length (some bs) with
+    | .ok (r', _) => (r', .ok []) | .err _ => (r, .refused) | .null => (r, .refused) | _ => (r, .bad)
+  | .get pos n => match r.get pos n true with
+    | .ok (_, out) => (r, .ok out) | .err _ => (r, .refused) | .null => (r, .refused) | _ => (r, .bad)
+
+/-- S: the same operation on a plain byte list with capacity `cap`.  Requests for more than is stored or
+    free are refused; a zero-length push onto a completely full queue is refused as well (the content is
+    the same either way). -/
+def stepS (cap : Nat) (d : List Byte) : Op → List Byte × Out
+  | .push bs => if d.length < cap ∧ bs.length ≤ cap - d.length then (d ++ bs, .ok []) else (d, .refused)
+  | .unshift bs => if d.length < cap ∧ bs.length ≤ cap - d.length then (bs ++ d, .ok []) else (d, .refused)
+  | .pop n => if n ≤ d.length then (d.take (d.length - n), .ok (d.drop (d.length - n))) else (d, .refused)
+  | .shift n => if n ≤ d.length then (d.drop n, .ok (d.take n)) else (d, .refused)
+  | .crop pos n => if pos + n ≤ d.length then (d.take pos ++ d.drop (pos + n), .ok []) else (d, .refused)
+  | .set pos bs =>
+    if bs.length = 0 then (d, .ok [])
+    else if pos + bs.length ≤ d.length then (d.take pos ++ bs ++ d.drop (pos + bs.length), .ok [])
+    else (d, .refused)
+  | .get pos n =>
+    if n = 0 then (d, .ok [])
+    else if pos + n ≤ d.length then (d, .ok ((d.drop pos).take n)) else (d, .refused)
+
+theorem setSrc_some (bs : List Byte) : setSrc bs.length (some bs) = bs := by
+  unfold setSrc; simp
+
+/-- **One step**: on every well-formed ring, every operation of the model (i) keeps the ring well-formed and
+    its capacity, (ii) changes the denoted content exactly as the plain deque operation does, (iii) returns
+    the deque's bytes / refuses exactly when the deque refuses, (iv) never leaves the storage (`Out.bad`
+    is impossible because the deque never produces it). -/
+theorem step_refines (r : Ring) (h : r.WF) (op : Op) :
+    (stepM r op).1.WF ∧ (stepM r op).1.store.length = r.store.length ∧
+    ((stepM r op).1.content, (stepM r op).2) = stepS r.store.length r.content op := by
+  have hcl := content_length r h.1 h.2
+  have h1 : r.len ≤ r.store.length := h.1
+  have h2 : r.off ≤ r.store.length := h.2
+  cases op with
+  | push bs =>
+    simp only [stepM, stepS]
+    by_cases hc : r.len < r.store.length ∧ bs.length ≤ r.store.length - r.len
+    · obtain ⟨r', c, he, hw, hl, hcn⟩ := qpush_ok r h bs.length (some bs) hc.1 hc.2
+      rw [he, hcl, if_pos hc, hcn, setSrc_some]
+      exact ⟨hw, hl, rfl⟩
+    · rw [qpush_refused r h bs.length (some bs) (by omega), hcl, if_neg hc]
+      exact ⟨h, rfl, rfl⟩
+  | unshift bs =>
+    simp only [stepM, stepS]
+    by_cases hc : r.len < r.store.length ∧ bs.length ≤ r.store.length - r.len
+    · obtain ⟨r', c, he, hw, hl, hcn⟩ := qunshift_ok r h bs.length (some bs) hc.1 hc.2
+      rw [he, hcl, if_pos hc, hcn, setSrc_some]
+      exact ⟨hw, hl, rfl⟩
+    · rw [qunshift_refused r h bs.length (some bs) (by omega), hcl, if_neg hc]
+      exact ⟨h, rfl, rfl⟩
+  | pop n =>
+    simp only [stepM, stepS]
+    obtain ⟨hok, hno⟩ := qpop_spec r h n true
+    by_cases hc : n ≤ r.len
+    · rcases hok hc with he | ⟨hf, _⟩
+      · rw [he, hcl, if_pos hc]
+        refine ⟨⟨by simp only []; omega, h.2⟩, rfl, ?_⟩
+        rw [content_take r (r.len - n) (by omega)]
+      · cases hf
+    · rw [hno (by omega), hcl, if_neg hc]
+      exact ⟨h, rfl, rfl⟩
+  | shift n =>
+    simp only [stepM, stepS]
+    obtain ⟨hok, hno⟩ := qshift_spec r h n true
+    by_cases hc : n ≤ r.len
+    · rcases hok hc with ⟨r', he, hw, hs, hl, hcn⟩ | ⟨hf, _⟩
+      · rw [he, hcl, if_pos hc, hcn]
+        exact ⟨hw, by rw [hs], rfl⟩
+      · cases hf
+    · rw [hno (by omega), hcl, if_neg hc]
+      exact ⟨h, rfl, rfl⟩
+  | crop pos n =>
+    simp only [stepM, stepS]
+    by_cases hc : pos + n ≤ r.len
+    · by_cases hp : pos = 0
+      · subst hp
+        obtain ⟨r', c, he, hw, hs, hl, hcn⟩ := crop_front r h n (by omega)
+        rw [he, hcl, if_pos hc, hcn]
+        refine ⟨hw, by rw [hs], ?_⟩
+        simp
+      · obtain ⟨r', c, he, hw, hs, ho, hl, hcn⟩ := crop_mid r h pos n hp hc
+        rw [he, hcl, if_pos hc, hcn]
+        exact ⟨hw, hs, rfl⟩
+    · rw [crop_refused r h pos n (by omega), hcl, if_neg hc]
+      exact ⟨h, rfl, rfl⟩
+  | set pos bs =>
+    simp only [stepM, stepS]
+    by_cases h0 : bs.length = 0
+    · rw [if_pos h0]
+      unfold Ring.set
+      rw [if_pos h0]
+      exact ⟨h, rfl, rfl⟩
+    · rw [if_neg h0]
+      by_cases hc : pos + bs.length ≤ r.len
+      · obtain ⟨r', c, he, hw, hs, ho, hl, hcn⟩ := set_ok r h pos bs.length (some bs) (by omega) hc
+        rw [he, hcl, if_pos hc, hcn, setSrc_some]
+        exact ⟨hw, hs, rfl⟩
+      · rw [hcl, if_neg hc]
+        rcases set_refused r h pos bs.length (some bs) (by omega) (by omega) with he | he <;> rw [he] <;>
+          exact ⟨h, rfl, rfl⟩
+  | get pos n =>
+    simp only [stepM, stepS]
+    by_cases h0 : n = 0
+    · rw [if_pos h0]
+      unfold Ring.get
+      rw [if_pos h0]
+      exact ⟨h, rfl, rfl⟩
+    · rw [if_neg h0]
+      by_cases hc : pos + n ≤ r.len
+      · obtain ⟨c, he⟩ := get_ok r h pos n (by omega) hc
+        rw [he, hcl, if_pos hc]
+        exact ⟨h, rfl, rfl⟩
+      · rw [get_refused r h pos n true (by omega) (by omega), hcl, if_neg hc]
+        exact ⟨h, rfl, rfl⟩
+
+/-- run a history on the model / on the spec, collecting the outcomes -/
+def runM (r : Ring) : List Op → Ring × List Out
+  | [] => (r, [])
+  | op :: ops => let (r1, o) := stepM r op; let (r2, os) := runM r1 ops; (r2, o :: os)
+
+def runS (cap : Nat) (d : List Byte) : List Op → List Byte × List Out
+  | [] => (d, [])
+  | op :: ops => let (d1, o) := stepS cap d op; let (d2, os) := runS cap d1 ops; (d2, o :: os)
+
+/-- **Deque refinement for all histories**: from any well-formed ring (any capacity, offset, fill —
+    wrapped or not) and for any finite sequence of operations, the model ends with exactly the content
+    the plain byte deque holds after the same operations, and every operation returned exactly the
+    deque's bytes / verdicts (in particular no `Out.bad`: no access left the storage). -/
+theorem deque_refinement (ops : List Op) (r : Ring) (h : r.WF) :
+    (runM r ops).1.WF ∧ (runM r ops).1.store.length = r.store.length ∧
+    ((runM r ops).1.content, (runM r ops).2) = runS r.store.length r.content ops := by
+  induction ops generalizing r with
+  | nil => exact ⟨h, rfl, rfl⟩
+  | cons op ops ih =>
+    obtain ⟨hw, hl, he⟩ := step_refines r h op
+    obtain ⟨hw2, hl2, he2⟩ := ih (stepM r op).1 hw
+    unfold runM runS
+    have e1 : (stepS r.store.length r.content op).1 = (stepM r op).1.content := by rw [← he]
+    have e2 : (stepS r.store.length r.content op).2 = (stepM r op).2 := by rw [← he]
+    simp only []
+    rw [e1, e2, ← hl, ← he2]
+    exact ⟨hw2, by rw [hl2], rfl⟩
+
+/-- refused operations leave the content unchanged (corollary, stated on its own because the property
+    names it) -/
+theorem refusal_pure (r : Ring) (h : r.WF) (op : Op) (hr : (stepM r op).2 = .refused) :
+    (stepM r op).1.content = r.content := by
+  obtain ⟨_, _, he⟩ := step_refines r h op
+  have e1 : (stepS r.store.length r.content op).1 = (stepM r op).1.content := by rw [← he]
+  have e2 : (stepS r.store.length r.content op).2 = (stepM r op).2 := by rw [← he]
+  rw [hr] at e2
+  rw [← e1]
+  cases op <;> simp only [stepS] at e2 ⊢ <;> (repeat' split at e2) <;> first | (cases e2; done) | (simp_all; done) | (split <;> simp_all)
+
+/-- no access of the model leaves the storage, for any history -/
+theorem in_bounds (ops : List Op) (r : Ring) (h : r.WF) : Out.bad ∉ (runM r ops).2 := by
+  have e2 : (runS r.store.length r.content ops).2 = (runM r ops).2 := by
+    rw [← (deque_refinement ops r h).2.2]
+  rw [← e2]
+  generalize r.content = d
+  generalize r.store.length = cap
+  clear e2 h
+  induction ops generalizing d with
+  | nil => simp [runS]
+  | cons op ops ih =>
+    unfold runS
+    simp only [List.mem_cons, not_or]
+    refine ⟨?_, ih _⟩
+    cases op <;> simp only [stepS] <;> (repeat' split) <;> simp
+
+-- non-vacuity: a wrapped ring (capacity 4, offset 3, content "abc" = 1 byte at the end + 2 at the start)
+example : (Ring.make 4 3 [97, 98, 99]).WF ∧ (Ring.make 4 3 [97, 98, 99]).content = [97, 98, 99]
+    ∧ (Ring.make 4 3 [97, 98, 99]).store = [98, 99, 0, 97] := by
+  refine ⟨⟨by decide, by decide⟩, by decide, by decide⟩
+example : (runM (Ring.make 4 3 [97, 98, 99]) [.crop 1 1, .push [100, 101], .pop 3]).2
+    = [.ok [], .ok [], .ok [99, 100, 101]] := by decide
+
+/-! ### Stated, not proved (tied to the code by the correspondence run only) -/
+
+/-- re-aligning keeps the content -/
+def align_statement : Prop :=
+  ∀ (r : Ring) (pos : Nat), r.WF → ∃ r', r.align pos = .ok r' ∧ r'.WF ∧ r'.content = r.content
+/-- growing keeps the content, shrinking keeps the last `n` bytes -/
+def resize_statement : Prop :=
+  ∀ (r : Ring) (n : Nat), r.WF → ∃ r', r.resize n = .ok r' ∧ r'.WF ∧ r'.store.length = n ∧
+    r'.content = r.content.drop (r.len - n)
+/-- the zero-terminated view returns the content and keeps it -/
+def string_statement : Prop :=
+  ∀ (r : Ring), r.WF → r.len < r.store.length →
+    ∃ r', r.string = .ok (r', r.content) ∧ r'.WF ∧ r'.content = r.content
+
 end Mpt.C13
